@@ -4,6 +4,7 @@ package c01
 
 import (
 	"fmt"
+	"strconv"
 	"strings"
 
 	"verif/harness/internal/core"
@@ -21,7 +22,7 @@ func (flavor) Profile() lc.Profile { return lc.Profile{Validate: 3, Stop: 5, Log
 func (flavor) Impl(ops []lc.Op, obs []lc.StepObs) string {
 	parts := make([]string, len(obs))
 	for i, o := range obs {
-		parts[i] = o.Res + "|" + o.Raw + "|" + lc.ShowSocks(o) + "|" + lc.ShowPool(o.MPool)
+		parts[i] = o.Res + "|" + o.Raw + "|" + lc.ShowSocks(o) + "|" + lc.ShowPool(o.MPool) + "|" + strconv.Itoa(o.DStor)
 	}
 	return strings.Join(parts, " ")
 }
@@ -33,6 +34,8 @@ func (flavor) Impl(ops []lc.Op, obs []lc.StepObs) string {
 func (flavor) Oracle(ops []lc.Op, obs []lc.StepObs) []core.Failure {
 	var fails []core.Failure
 	var running *lc.Cfg
+	specStor := 0              // certmagic.Default.Storage by the spec: the storage of the last accepted configuration
+	leftStor := map[int]bool{} // storages a validated / late-rejected / first-ever-rejected configuration set (known finding)
 	for i, o := range obs {
 		op := ops[i]
 		attempted := lc.Attempted(op, running)
@@ -46,6 +49,27 @@ func (flavor) Oracle(ops []lc.Op, obs []lc.StepObs) []core.Failure {
 		case accepted:
 			fails = append(fails, core.Failure{Class: "accepted-impossible-change",
 				What: fmt.Sprintf("op %d (%s) was accepted although there is nothing it could apply to", i, op)})
+		}
+		// the process-wide default storage
+		if c := storageSetter(op, attempted); c != nil {
+			switch {
+			case op.Kind == 'V' && o.Res == "ok",
+				o.Res == "err:start", o.Res == "err:post", o.Res == "err:admin",
+				!accepted && running == nil:
+				leftStor[c.Stor.Key] = true
+			}
+		}
+		if o.Res == "ok" && attempted != nil && op.Kind != 'V' && op.Kind != 'S' {
+			specStor = attempted.Stor.Key
+		}
+		if o.DStor != specStor {
+			if leftStor[o.DStor] {
+				fails = append(fails, core.Failure{Class: "default-storage-left-by-validated-or-late-rejected-config",
+					What: fmt.Sprintf("op %d (%s → %s): certmagic.Default.Storage is storage %d, the last accepted configuration has storage %d — provisionContext makes the new config's storage the process default before the apps are provisioned; only its own error path restores it (and only if a config is running), Validate and run()'s later failure paths do not", i, op, o.Res, o.DStor, specStor)})
+			} else {
+				fails = append(fails, core.Failure{Class: "default-storage-differs-from-running-config",
+					What: fmt.Sprintf("op %d (%s → %s): certmagic.Default.Storage is storage %d, the last accepted configuration has storage %d", i, op, o.Res, o.DStor, specStor)})
+			}
 		}
 		wantRaw := "null"
 		if running != nil {
@@ -111,4 +135,26 @@ func runningCid(ops []lc.Op, obs []lc.StepObs) int {
 		}
 	}
 	return cid
+}
+
+// storageSetter: the configuration whose storage this operation made the process default (nil if
+// the operation did not get that far: no context created, or logging / the storage module failed).
+func storageSetter(op lc.Op, attempted *lc.Cfg) *lc.Cfg {
+	var c *lc.Cfg
+	switch op.Kind {
+	case 'V':
+		cc := op.Cfg
+		c = &cc
+	case 'L', 'P', 'D':
+		c = attempted
+	}
+	if c == nil || c.Top == 1 || c.Top == 2 || c.Stor.Fault != 0 {
+		return nil
+	}
+	for _, l := range c.Logs {
+		if l.Fault != 0 {
+			return nil
+		}
+	}
+	return c
 }
